@@ -2,7 +2,8 @@
   Reference semantics for C06 / C07: Python's own evaluation of a condition expression -
   left to right, `and`/`or` short-circuit and yield the deciding operand, comparison chains
   evaluate each comparator at most once and stop at the first false link, a conditional
-  expression evaluates one branch, a comprehension is one native evaluation.  The log records
+  expression evaluates one branch, a comprehension is one native evaluation; displays (with unpacking), slices,
+  calls with starred / keyword arguments and f-strings evaluate their parts left to right.  The log records
   `(node id, value)` for every node evaluated outside comprehension scopes, in evaluation order.
   Validated on every run against an AST-instrumented CPython evaluation.
 -/
@@ -66,6 +67,92 @@ def pyEval (ops : Ops) (env : Env) : Expr → Except Exc (Val × Log)
   | .comp i _ _ => do
       let r ← ops.comp i env.names
       pure (r, [(i, r)])
+
+  -- second version ------------------------------------------------------------------------------------
+  | .starred _ _ => .error "SyntaxError"                  -- `*e` is not an expression on its own
+  | .coll i kind es => do
+      let (vs, l) ← pyEvalElts ops env es
+      let r ← (match kind with
+        | .list => .ok (Val.list vs)
+        | .tuple => .ok (Val.tuple vs)
+        | .set => ops.mkSet vs)
+      pure (r, l ++ [(i, r)])
+  | .dict i items => do
+      let (d, l) ← pyEvalItems ops env ops.dictEmpty items
+      pure (d, l ++ [(i, d)])
+  | .slice i lo hi step => do
+      let (l, l1) ← pyEvalOpt ops env lo
+      let (h, l2) ← pyEvalOpt ops env hi
+      let (s, l3) ← pyEvalOpt ops env step
+      pure (.slice l h s, l1 ++ l2 ++ l3 ++ [(i, .slice l h s)])
+  | .callkw i f args kws => do
+      let (fv, l0) ← pyEval ops env f
+      let (avs, l1) ← pyEvalElts ops env args
+      let (kvs, l2) ← pyEvalKws ops env [] kws
+      let r ← ops.callkw fv avs kvs
+      pure (r, l0 ++ l1 ++ l2 ++ [(i, r)])
+  | .fvalue _ e conv spec => do
+      -- Python evaluates the value first, the format specification second; the formatted piece is not a node of its own
+      let (v, l1) ← pyEval ops env e
+      let (sp, l2) ← (match spec with
+        | none => (.ok (none, []) : Except Exc (Option Val × Log))
+        | some s => do
+            let (r, l) ← pyEval ops env s
+            pure (some r, l))
+      let r ← ops.format v conv sp
+      pure (r, l1 ++ l2)
+  | .fstring i parts => do
+      let (vs, l) ← pyEvalList ops env parts
+      let r ← ops.join vs
+      pure (r, l ++ [(i, r)])
+
+/-- the elements of a display / the positional arguments of a call: `*e` is unpacked -/
+def pyEvalElts (ops : Ops) (env : Env) : List Expr → Except Exc (List Val × Log)
+  | [] => .ok ([], [])
+  | .starred _ e :: rest => do
+      let (s, l) ← pyEval ops env e
+      let xs ← ops.iter s
+      let (vs, l2) ← pyEvalElts ops env rest
+      pure (xs ++ vs, l ++ l2)
+  | e :: rest => do
+      let (v, l) ← pyEval ops env e
+      let (vs, l2) ← pyEvalElts ops env rest
+      pure (v :: vs, l ++ l2)
+
+/-- the keywords of a call, in order; a repeated keyword is a TypeError -/
+def pyEvalKws (ops : Ops) (env : Env) (acc : List (String × Val)) : List (Option String × Expr) → Except Exc (List (String × Val) × Log)
+  | [] => .ok (acc, [])
+  | (some k, e) :: rest => do
+      let (v, l) ← pyEval ops env e
+      if acc.any (fun p => p.1 == k) then .error "TypeError"
+      else do
+        let (r, l2) ← pyEvalKws ops env (acc ++ [(k, v)]) rest
+        pure (r, l ++ l2)
+  | (none, e) :: rest => do
+      let (u, l) ← pyEval ops env e
+      let kvs ← ops.kwItems u
+      let acc' ← kvs.foldlM (fun a p => if a.any (fun q => q.1 == p.1) then (.error "TypeError" : Except Exc _) else .ok (a ++ [p])) acc
+      let (r, l2) ← pyEvalKws ops env acc' rest
+      pure (r, l ++ l2)
+
+/-- a dictionary display: key, then value, item by item -/
+def pyEvalItems (ops : Ops) (env : Env) (d : Val) : List (Option Expr × Expr) → Except Exc (Val × Log)
+  | [] => .ok (d, [])
+  | (none, e) :: rest => do
+      let (u, l) ← pyEval ops env e
+      let d' ← ops.dictUpdate d u
+      let (r, l2) ← pyEvalItems ops env d' rest
+      pure (r, l ++ l2)
+  | (some k, e) :: rest => do
+      let (kv, l1) ← pyEval ops env k
+      let (vv, l2) ← pyEval ops env e
+      let d' ← ops.dictSet d kv vv
+      let (r, l3) ← pyEvalItems ops env d' rest
+      pure (r, l1 ++ l2 ++ l3)
+
+def pyEvalOpt (ops : Ops) (env : Env) : Option Expr → Except Exc (Val × Log)
+  | none => .ok (Val.none, [])
+  | some e => pyEval ops env e
 
 def pyEvalList (ops : Ops) (env : Env) : List Expr → Except Exc (List Val × Log)
   | [] => .ok ([], [])
